@@ -26,7 +26,7 @@ BATCH = 24
 
 
 def programs(tier_: str) -> list[dict]:
-    total = 360 if tier_ == "quick" else 14400
+    total = 480 if tier_ == "quick" else 14400
     pins = defs.pinned_definitions()
     cand = [d for name, d in sorted(pins.items()) if name not in defs.ALWAYS]
     out = []
